@@ -6,7 +6,6 @@ NA = {
  "C03": "Accuracy of spline-derived IMU rates/forces against analytic kinematics 'within interpolation error that shrinks with the interval' is a limit statement over continuous trajectories; nothing discrete to explore.",
  "C04": "Compares a matrix of transcendental entries with finite-difference sensitivities of a float integrator within the size of neglected terms; numeric tolerance is the whole content.",
  "C05": "Left-inverse and first/second-order residual claims over continuous states are numeric; its only discrete clause (2D rows identically zero) is exercised under C13.",
- "C11": "Numeric equality between two float pipelines (recursive filter vs batch Gauss-Markov) over transcendental system matrices; its time grid is C10 and the block layout is covered structurally under C14.",
  "C15": "Order of accuracy as the sampling interval shrinks is a limit statement; the row/stamp clause is part of the C19 schema check.",
  "C16": "Identities between transcendental functions over a continuum (geodetic round trips, derivatives, parity); no state, no exact domain.",
  "C17": "Trig round trips, exponential-map accuracy across a branch threshold and a Jacobian identity are numeric-accuracy claims with no discrete structure.",
@@ -28,8 +27,8 @@ CHECKS = {
    technique="TLA+ model of the filter loop checked exhaustively with TLC + trace validation of real executions (FeedforwardFilterTrace.tla) + replay of TLC-simulated schedules",
    ref="DESIGN.md s5 (FeedforwardFilter), s6 C10"),
  "C12": dict(
-   text="Clause 1 (transparent without data): invariant Transparent of FeedbackLoop.tla for all schedules of the bound, and on real runs with no in-span sample (None, [], only outside the span) x all sensor-model kinds x steps the trajectory is compared bitwise with plain integration (clause `transparent` of FeedbackFilterTrace.tla). Clause 3 (re-run): FilterRuns.tla (runs sharing model objects, pokes between runs) model-checked, TLC-simulated run sequences executed on the real filters and equal (kind, data) runs compared bitwise. Clause 2 (first-order agreement with the feedforward filter) is numeric and NOT decided.",
-   note="Partial claim: clause 2 is out of reach of the technique (DESIGN.md s6 C12). Trusts the bitwise oracle Integrator(initial).integrate(increments).",
+   text="Clause 1 (transparent without data): invariant Transparent of FeedbackLoop.tla for all schedules of the bound, and on real runs with no in-span sample (None, [], only outside the span) x all sensor-model kinds x steps the trajectory is compared bitwise with plain integration (clause `transparent` of FeedbackFilterTrace.tla). Clause 3 (re-run): FilterRuns.tla (runs sharing model objects, pokes between runs) model-checked, TLC-simulated run sequences executed on the real filters and equal (kind, data) runs compared bitwise. Clause 2 (first-order agreement with the feedforward filter): its DISCRETE part is decided - the dataflow clause of FeedbackFilterTrace.tla on every real run: each correction starts from the current covariance and from a zero error vector (errors were fed back), with the (z, H in the INS block, R) the measurement model returned; the state fed back is correct_pva(CURRENT integrator state, x[INS]), the sensor estimates get the gyro/accel blocks of the same x; P is propagated over exactly the interval the integrator advanced with the joint system of JointSystem.tla's block terms; sd / estimate tables are the values held at the recorded loop times (1e-9 relative; bit-identical id chain as refinement). The asymptotic statement itself (disagreement shrinking with the error scale) is numeric and NOT decided.",
+   note="Partial claim: the asymptotic part of clause 2 is out of reach of the technique (DESIGN.md s6 C12). Trusts the bitwise oracle Integrator(initial).integrate(increments) and, for the dataflow clause, the public correct_pva / system_matrices / transform_to_output as the meaning of the steps.",
    technique="TLA+ models (FeedbackLoop.tla, FilterRuns.tla) checked with TLC + trace validation / replay on the real filters with bitwise comparison",
    ref="DESIGN.md s6 C12"),
  "C13": dict(
@@ -78,7 +77,15 @@ CHECKS.update({
    ref="DESIGN.md s6 C06"),
 })
 
-ORDER = ["C02", "C06", "C07", "C08", "C09", "C10", "C12", "C13", "C14", "C18", "C19"]
+CHECKS.update({
+ "C11": dict(
+   text="Partial claim - the discrete part of 'the feedforward filter is the optimal estimator of its model'. The property is decomposed: (1) each measurement step is the exact Bayesian update (C07), (2) each propagation uses the exact transition/noise integral (C08), (3) the joint system: JointSystem.tla gives, for every configuration (mode x gyro mask x accel mask), the block offsets, the may-be-non-zero patterns and the BLOCK TERMS of F, G, q, P0 and the measurement matrix as formulas over the public pieces (system_matrices, the sensor models' F/G/H(r)/J/P/q/v, transform_to_internal, the measurement model's H); TLC checks their mutual consistency (TermsMatchSupport, NoiseOrder, NoiseRouting, QStructure, WalkOwnBias, ...); (4) the time grid (FeedforwardLoop.tla, exhaustive, as C10); (5) the dataflow: on real executions (TLC-simulated configurations, corner and seeded random float schedules, all sensor-model kinds, both modes) the harness keeps its own copy of what x and P must be (P0 assembled from the block terms; every kalman.correct output; Phi x and Phi P Phi' + Qd with Phi, Qd as compute_process_matrices returned them) and FeedforwardFilterTrace.tla judges every observed call: correct() is given the current x and P and the (z, H placed in the INS block, R) its measurement model returned; the measurement models see the computed trajectory interpolated at the epoch; compute_process_matrices is given the joint (F, Q) of the block terms at the mid-point state with the increments of exactly that interval and dt = the advance of the result index; result rows (sensor tables = x blocks, sd = sqrt diag(T P T'), compensated trajectory = computed - T x, innovations = what correct returned) are those of the (x, P) held when the row was recorded. Values are compared at 1e-9 relative (contract); the bit-identical id chain is walked by the trace specification as refinement.",
+   note="NOT decided: the numeric comparison with an independent one-shot Gauss-Markov solution. It follows from (1)-(5) by the Kalman filter theorem, which is trusted; C07/C08 are decided on exact domains only; the attitude averaging of the filter's private interpolation helper is taken as given (position/velocity interpolation is checked).",
+   technique="TLA+ models (JointSystem.tla block terms, FeedforwardLoop.tla) checked with TLC + trace validation of real executions against FeedforwardFilterTrace.tla (dataflow clause: value chain of x and P, joint-system assembly, result rows)",
+   ref="DESIGN.md s6 C11"),
+})
+
+ORDER = ["C02", "C06", "C07", "C08", "C09", "C10", "C11", "C12", "C13", "C14", "C18", "C19"]
 m = {
  "version": 1,
  "setup_cmd": "true",
